@@ -271,7 +271,8 @@ def validate(module, cfg, trace, shards=None, env=None, xmx="2g", timeout=3600, 
     sdir.mkdir(parents=True, exist_ok=True)
     parts = split_lines(trace, shards if linear else 1, sdir, Path(trace).stem + f"_{os.getpid()}", boundary)
     if not parts:
-        return [], {"records": 0, "generated": 0, "distinct": 0, "wall": 0.0}
+        # an empty trace validates nothing: never let a check pass vacuously
+        raise ToolError(f"empty trace {trace}: the harness recorded nothing for {module}")
 
     def one(part):
         p, off, cnt = part
